@@ -117,7 +117,7 @@ func TestMakeSeeds(t *testing.T) {
 		s.block()
 		write(t, dir, "kf-feeoption-read-from-check-state.json", s.tr)
 	}
-	// 2b. open finding: the fee-option update function (action/govUpdate.go feeOptionminFeeDecimal) calls
+	// 2b. fixed by 30e400e: the fee-option update function (action/govUpdate.go feeOptionminFeeDecimal) calls
 	// ctx.FeePool.SetupOpt on the process-wide fee store also on the CheckTx path. A config-update proposal
 	// raising the minimum fee has passed (finalisation is due at the end of block 5); PROPOSAL_FINALIZE is
 	// checked right after BeginBlock(5); the SEND delivered next in block 5 is rejected on that replica only.
